@@ -19,7 +19,7 @@ use crate::{
         c14::timestamp,
         c20::{tag_name, tag_table},
     },
-    streamlab::parse_all,
+    streamlab::{on_used_connection, parse_all, with_history, OnUsedConnection},
 };
 
 type Lines = Vec<(String, String)>;
@@ -663,12 +663,18 @@ fn text() -> impl Strategy<Value = String> {
 }
 
 fn nonempty_text() -> impl Strategy<Value = String> {
-    "[A-Za-z0-9_.-]{1,12}"
+    // names (stickers, channels) are arbitrary UTF-8 on the MPD side: multi-byte characters matter
+    // wherever a decoder mixes byte offsets and character counts
+    prop_oneof![
+        3 => "[A-Za-z0-9_.-]{1,12}",
+        1 => "[A-Za-z0-9_.\u{e4}\u{df}\u{3a9}\u{8a55}\u{4fa1}\u{1f3b5}-]{1,8}",
+    ]
 }
 
 fn sticker_value() -> impl Strategy<Value = String> {
     prop_oneof![
         3 => "[a-z0-9 ]{0,10}",
+        1 => "[a-z\u{e4}\u{3a9}\u{8a55}\u{1f3b5}=]{1,8}",
         3 => "[a-z0-9]{0,5}=[a-z0-9=]{0,6}",
         1 => Just("=".to_string()),
         1 => Just("a=b=c".to_string()),
@@ -755,14 +761,19 @@ pub fn property(_tier: Tier) -> Property {
         level: "exploration",
         parts: vec![Box::new(RandomPart {
             name: "replies",
-            rule: "proptest: abstract replies of status (every subset of optional fields, MPD's order or shuffled, all state/single spellings, boundary numbers, MPD's extra lines audio/mixrampdb/time), stats, count, grouped count (repeated/empty/changing keys, songs/playtime in either order), list plain and grouped by 1-2 tags (MPD's nesting, empty keys), listplaylists, sticker get/list/find (values containing '='), channels, readmessages, tagtypes, update/rescan, replay_gain_status, addid; with probability 1/3 one value with a domain is replaced by an unambiguous out-of-domain spelling and the decoder must return Err. Decoded values compared field by field. non-trivial = status with both present and absent optional fields, >=2 groups, sticker value containing '=', >=2 messages, or an out-of-domain variant; distinct by serialised case; runs with and without chrono",
+            rule: "proptest: abstract replies of status (every subset of optional fields, MPD's order or shuffled, all state/single spellings, boundary numbers, MPD's extra lines audio/mixrampdb/time), stats, count, grouped count (repeated/empty/changing keys, songs/playtime in either order), list plain and grouped by 1-2 tags (MPD's nesting, empty keys), listplaylists, sticker get/list/find (values containing '='), channels, readmessages, tagtypes, update/rescan, replay_gain_status, addid; with probability 1/3 one value with a domain is replaced by an unambiguous out-of-domain spelling and the decoder must return Err. Decoded values compared field by field. Sticker and channel names and sticker values include multi-byte characters. The reply is decoded on a connection with a history in half of the cases (1-1500 distinct field names received earlier, the reply's own field names received earlier with other values, or an earlier line of 70 KiB-4 MiB). non-trivial = status with both present and absent optional fields, >=2 groups, sticker value containing '=', >=2 messages, or an out-of-domain variant; distinct by serialised case; runs with and without chrono",
             cases: (100_000, 30_000_000),
             strategy: Box::new(|_t| {
-                (reply(), prop::option::weighted(0.33, (any::<u16>(), any::<u8>()).prop_map(|(which, how)| Spoil { which, how })))
-                    .prop_map(|(reply, spoil)| Case { reply, spoil })
-                    .boxed()
+                on_used_connection(
+                    (reply(), prop::option::weighted(0.33, (any::<u16>(), any::<u8>()).prop_map(|(which, how)| Spoil { which, how })))
+                        .prop_map(|(reply, spoil)| Case { reply, spoil }),
+                )
             }),
-            check: Box::new(check),
+            check: Box::new(|u: &OnUsedConnection<Case>| {
+                let mut r = with_history(&u.history, || check(&u.case));
+                u.classify(&mut r);
+                r
+            }),
         })],
         assumptions: vec![
             "the reply encoder follows the protocol reference (status/stats field names incl. updating_db, 'key=value' stickers, list grouping nesting)",
